@@ -344,6 +344,17 @@ fn run_demux(sessions: &[SenderScn], recv: &RecvSpec, jitter_us: u64, cleanup_ev
         }
         let ev_before = rr.sess_events.borrow().clone();
         check_listener(ctx, &ev_before, label, false);
+        // with a session timeout every session has expired by now (two cleanups, one and two timeouts after the last
+        // packet - whatever wall-clock instants the caller passes): each was reported closed BEFORE the receiver is dropped
+        if recv.session_timeout_ms.is_some() {
+            let mut open: BTreeMap<String, bool> = BTreeMap::new();
+            for e in &ev_before {
+                open.insert(format!("{:?}/{}", e.key.endpoint, e.key.tsi), e.open);
+            }
+            if let Some((k, _)) = open.iter().find(|(_, v)| **v) {
+                violate(ctx, "C18/session-not-expired", "-", format!("{}: session {} is still open two session timeouts ({} ms) after the last packet although cleanup() ran", label, k, recv.session_timeout_ms.unwrap()));
+            }
+        }
         // a session is closed by EXPIRY (a close reported during a cleanup call) only when it has been silent for the
         // session timeout: every packet pushed for it counts as activity, also one that is discarded as already received
         if let Some(to_ms) = recv.session_timeout_ms {
